@@ -488,7 +488,18 @@ func init() {
 				}
 				time.Sleep(dur)
 				atomic.StoreInt32(&stop, 1)
-				wg.Wait()
+				// progress: once asked to stop, every validation and reload in flight completes. If they do not within 45 s they
+				// block each other (a lock taken twice, a writer starved for ever): the schedule at hand is the failing one.
+				finished := make(chan struct{})
+				go func() { wg.Wait(); close(finished) }()
+				select {
+				case <-finished:
+				case <-time.After(45 * time.Second):
+					c.violation("C20", fmt.Sprintf("%s: validations and reloads in flight never completed (45 s after they were asked to stop): they block each other", cfg.kind),
+						map[string]interface{}{"target": cfg.kind, "reloaders": cfg.reloaders, "validators": cfg.validator, "validations_completed_before_the_hang": atomic.LoadInt64(&nVal), "schedule": "concurrent reloads and validations, run " + fmt.Sprint(ci)})
+					c.close(nil)
+					os.Exit(3)
+				}
 				c.casen(fmt.Sprintf("conc:%d", ci), fmt.Sprintf("%s reloaders=%d validators=%d validations=%d", cfg.kind, cfg.reloaders, cfg.validator, nVal))
 				c.mu.Lock()
 				c.evals += int(nVal)
